@@ -5,6 +5,7 @@ import (
 	"crypto/sha256"
 	"fmt"
 	"math/big"
+	"verif/internal/refcodec"
 
 	"github.com/libsv/go-bk/bec"
 	"github.com/libsv/go-bt/v2"
@@ -618,6 +619,47 @@ func init() {
 								}, "single:"+cl)
 							}
 						}
+					}
+				}
+			}
+		}
+		c.Phase("embedded-signature") // legacy hashing: the locking script itself contains a push of the checked signature. Only the standard (minimal) push of it is taken out of the script code; a PUSHDATA1/2/4 push of the same bytes stays and is hashed.
+		n = 0
+		for _, form := range []byte{0, 0x4c, 0x4d, 0x4e} {
+			for _, ht := range []byte{0x01, 0x02, 0x03, 0x81, 0x83} {
+				for _, fl := range []uint32{0, uint32(scriptflag.UTXOAfterGenesis), uint32(scriptflag.VerifyDERSignatures | scriptflag.VerifyLowS), uint32(scriptflag.VerifyStrictEncoding | scriptflag.UTXOAfterGenesis)} {
+					for rep := 0; rep < 2; rep++ {
+						n++
+						if !c.Case(n) {
+							continue
+						}
+						r := c.Rand(n)
+						kb := r.Bytes(32)
+						kb[0] &= 0x7f
+						kb[31] |= 1
+						priv, pub := keyOf(kb)
+						pk := pub.SerialiseCompressed()
+						shape := gen.RandShape(r, gen.ShapeOpts{MinIns: 1, MaxIns: 3, MaxOuts: 3})
+						cs := &c06Case{Flags: fl, Sats: uint64(1 + r.Intn(100000)), Keys: []mon.Hex{kb}, Tx: *shape, Idx: r.Intn(len(shape.Ins)), Class: "embedded-signature"}
+						codeMinus := append(append([]byte{0x75}, gen.Push(pk)...), 0xac)
+						dg, err := refsighash.LegacyDigest(shModelTx(&cs.Tx), cs.Idx, codeMinus, uint32(ht))
+						if err != nil {
+							continue
+						}
+						der := signDER(priv, dg[:])
+						sig := append(append([]byte{}, der...), ht)
+						push := gen.Push(sig)
+						if form != 0 {
+							push, _ = refcodec.PushWith(form, sig)
+						}
+						cs.Lock = append(append([]byte{}, push...), codeMinus...)
+						if rep == 1 {
+							cs.Lock = append(cs.Lock, 0x91) // ... NOT
+						}
+						cs.Sigs = []c06SigRec{{Body: der, Key: 0, Digest: dg[:]}}
+						cs.Tx.Ins[cs.Idx].Unlock, cs.Tx.Ins[cs.Idx].UnlockNil = gen.Push(sig), false
+						cs.Desc = fmt.Sprintf("embedded signature pushed with form %#x, hash type %#x", form, ht)
+						judge(c, cs)
 					}
 				}
 			}
